@@ -244,6 +244,41 @@ def run_items(case):
             if res > 1e-7 * np.abs(K1).max() * max(np.abs(vals).max(), 1e-300):
                 bad(lab + "/pair", "extracted (shape, frequency) after re-evaluation is not an eigenpair of the current pencil", float(res), 0, 1e-7)
             nontrivial.append(lab)
+    # user solvers handed in through the documented solver= argument that return genuine pairs in ANOTHER order (descending;
+    # closest to a target value first, as shift-invert about a target does): pair n stays a pair, extract(n) reports ITS frequency
+    from scipy.sparse.linalg import eigsh as _eigsh
+
+    def _desc(A, M, sigma, **kw):
+        w, v = _eigsh(A=A, M=M, sigma=sigma, **kw)
+        return w[::-1].copy(), v[:, ::-1].copy()
+
+    def _closest(A, M, sigma, **kw):
+        w, v = _eigsh(A=A, M=M, sigma=sigma, **kw)
+        o = np.argsort(np.abs(w - 0.6 * w.max()))
+        return w[o], v[:, o]
+
+    bnd_ = dict(Bs["left"])
+    d0_, d1_ = fem.dof.partition(field, bnd_)
+    Ks_, Ms_ = Kf[np.ix_(d1_, d1_)], Mf[np.ix_(d1_, d1_)]
+    for slab, sol in (("descending", _desc), ("closest-to-target", _closest)):
+        job = fem.FreeVibration([body], bnd_)
+        job.evaluate(x0=field, solver=sol, k=5, v0=1.0 + zoo.offarr(seed, 1504, (len(d1_),)))
+        st["trans"] += 1
+        lam_, V = np.asarray(job.eigenvalues), np.asarray(job.eigenvectors)
+        for j in range(5):
+            res = np.abs(Ks_ @ V[:, j] - lam_[j] * (Ms_ @ V[:, j])).max() / (np.abs(Ks_).max() * np.abs(V[:, j]).max())
+            st["traces"] += 1
+            if res > 1e-7:
+                bad(f"solver-order/{slab}/pair{j}", "pair n returned by the analysis for a user solver that does not return ascending values: K v = lambda M v", float(res), 0, 1e-7)
+                break
+            f2, freq = job.extract(n=j, x0=field, inplace=False)
+            vv = f2[0].values.ravel()[d1_]
+            ray = float(vv @ (Ks_ @ vv) / (vv @ (Ms_ @ vv)))
+            if abs((2 * np.pi * freq) ** 2 - ray) > 1e-7 * abs(ray):
+                bad(f"solver-order/{slab}/extract{j}", "frequency reported by extract(n) vs the Rayleigh quotient of the extracted shape", float((2 * np.pi * freq) ** 2), ray, 1e-7)
+                break
+        else:
+            nontrivial.append(f"solver-order/{slab}")
     # one long-lived job whose ITEMS change between two evaluations (same unknowns): the density of a body, a second body
     # appended to / replaced in the item list, the stiffness multiplier -- every ordered pair of changes; the second evaluation
     # must return eigenpairs of the pencil assembled from the items as they are THEN
